@@ -74,8 +74,8 @@ CASES = {
         tasks=[task("productionTask", [("parallel", [("tA", [], []), ("tB", [], [])])]),
                task("tA", [svc("S1")]), task("tB", [svc("S2")])],
         vals=[val()], order="fifo", react=[None, None, None, None, None, 0] + [None] * 20, react_all=True),
-    "D25-reentrant-extra-listener": dict(
-        finding="D25-reentrant-extra-listener", properties=["C20", "C17", "C14"],
+    "D26-reentrant-extra-listener": dict(
+        finding="D26-reentrant-extra-listener", properties=["C20", "C17", "C14"],
         tasks=[task("productionTask", [loop("i", ("int", 2), [svc("S1")])])],
         vals=[val()], order="fifo", imm=[True] + [False] * 39, pre_script=[("register", "SS", 1)]),
     # ---- defects repaired by fix: commits (a failure here is an ordinary violation) ----
